@@ -197,6 +197,11 @@ def bi_pyvc_ghost_cached_type(self, ctx, d):
     return v
 
 
+def bi_pyvc_ghost_file_path_of(self, ctx, d):
+    """ASSUMED: the file path of a definition is a fixed attribute of the definition object (a Path, modelled as a text)."""
+    return self.e.uf("ghost!file_path", V.RefSort, z3.StringSort())(d.ref)
+
+
 def bi_pyvc_ghost_notify_visitors(self, ctx, d, lookup_definitions, visitors):
     """ASSUMED: during `d.read(...)` the visitors' on_definition(referrer, dependency) is called for every definition that
     resolve_versioned_data_type resolves (in this read or in the reads it triggers): a finite set of definitions taken
@@ -310,7 +315,7 @@ def bi_pyvc_ghost_sorted_enumeration(self, ctx, s):
     return out
 
 
-for _n in ("cached_type", "notify_visitors", "handler_reports_under", "read_outcome", "sorted_enumeration"):
+for _n in ("file_path_of", "cached_type", "notify_visitors", "handler_reports_under", "read_outcome", "sorted_enumeration"):
     setattr(Lib, "bi_pyvc_ghost_" + _n, globals()["bi_pyvc_ghost_" + _n])
 
 from . import libmodel as _lm
@@ -546,4 +551,23 @@ def snapshot_collection(v):
         return SymSet(v.term, v.elem_sort, v.fresh)
     if isinstance(v, SymMap):
         return SymMap(v.has, v.val, v.kkind, v.vkind)
+    return v
+
+
+def coerce_collection(ctx, v, kind):
+    """An empty `set()` / `{}` literal handed to a callee whose contract declares a typed mutable collection parameter:
+    the literal takes that type (the object keeps its identity)."""
+    if isinstance(kind, ObjSetOf) and isinstance(v, SymSet) and not isinstance(v, ObjSymSet) and L._is_empty_set(v.term):
+        v.__class__ = ObjSymSet
+        v.clsname = kind.clsname
+        v.elem_sort = V.RefSort
+        v.term = z3.K(V.RefSort, z3.BoolVal(False))
+        ctx.__dict__.setdefault("objsets", []).append(v)
+        return v
+    if isinstance(kind, V.MapOf) and isinstance(v, V.PyDict) and not v.items:
+        v.__class__ = SymMap
+        v.has = z3.K(kind.k.sort(), z3.BoolVal(False))
+        v.val = ctx.fresh("emptydict!val", z3.ArraySort(kind.k.sort(), kind.v.sort()))
+        v.kkind, v.vkind = kind.k, kind.v
+        return v
     return v
